@@ -56,7 +56,7 @@ type c2Op struct {
 	C  *c2Cfg  `json:"c,omitempty"`
 }
 type c2Trace struct {
-	Class  string `json:"class"`            // keep1 drop det2 det10 det100 det65536 other
+	Class  string `json:"class"`            // keep1 drop bare det2 det10 det100 det65536 other
 	Want   string `json:"want,omitempty"`   // keep | drop | "" : wanted trace-sampler decision (det classes)
 	Stress string `json:"stress,omitempty"` // keep | drop | "" : wanted stress decision
 	Pre    int    `json:"pre,omitempty"`    // 1..3: use a precomputed id that stress relief keeps at rates up to 2^37
@@ -111,6 +111,8 @@ func c2Rules() *config.RulesBasedSamplerConfig {
 	r := &config.RulesBasedSamplerConfig{Rules: []*config.RulesBasedSamplerRule{
 		{Name: "keep one", SampleRate: 1, Conditions: cond("keep1")},
 		{Name: "drop it", Drop: true, Conditions: cond("drop")},
+		// a "bare" rule: matches, but has no SampleRate, no Drop and no downstream sampler (rate 0: never kept)
+		{Name: "bare rule", Conditions: cond("bare")},
 	}}
 	for _, k := range []string{"det2", "det10", "det100", "det65536"} {
 		r.Rules = append(r.Rules, &config.RulesBasedSamplerRule{Name: k, Conditions: cond(k),
@@ -455,6 +457,9 @@ func c2RunInput(in *c2Input) (*c2Result, error) {
 		case "reload":
 			if o.C == nil {
 				return nil, fmt.Errorf("reload without config")
+			}
+			if o.C.Dry != env.conf.get().Dry {
+				res.Tags["dryrun-toggled-by-reload"] = true
 			}
 			env.conf.set(*o.C)
 			env.coll.VerifC04Reload()
